@@ -505,13 +505,18 @@ class Array(metaclass=MetaArray):
             if len(info.order) > 1:  # bring the axes in memory order
                 value = value.transpose(info.order)
             buffer.update_from_nplike(coffset, cls._itemtype._dtype, value)
-        elif isinstance(value, cls) and not cls._has_refs:  # binary copy
-            if value._size == info.size:
-                buffer.update_from_xbuffer(
-                    offset, value._buffer, value._offset, value._size
-                )
-            else:
-                raise ValueError("Value {value} not compatible size")
+        elif (
+            isinstance(value, cls)
+            and not cls._has_refs
+            and value._size == info.size
+            and (
+                cls._is_static_type
+                or np.array_equal(value._offsets, info.offsets)
+            )
+        ):  # binary copy (same layout)
+            buffer.update_from_xbuffer(
+                offset, value._buffer, value._offset, value._size
+            )
         elif value is None:  # no value to initialize
             if is_scalar(cls._itemtype):
                 pass  # leave uninitialized
